@@ -8,7 +8,7 @@ import random
 
 from sim import workload, hostile, configs
 from sim.kernel import K, enc_acquire, enc_expire, enc_nlmsg, _addr_raw
-from sim.monitors import Survival, data_plane_probe
+from sim.monitors import Survival, Wedge, data_plane_probe
 from sim.observe import WireLog
 from sim.scenario import execute, replayable
 
@@ -25,8 +25,8 @@ COMPONENTS = {'real': ['ikesacontroller.main_loop (real thread per node)', 'ikes
 ASSUMPTIONS = ['bounded time = interpreted-line budget 20000 + 250 per received octet per loop iteration',
                'authenticated-but-malformed input (needs the peer keys) is exercised by C06, not here']
 EXPECT_REACH = ['hostile_delivered', 'hostile_while_sa', 'kernel_oddity', 'sendto_failure', 'netlink_refusal',
-                'probe_served']
-NOT_EXERCISED = ['Byzantine configured peer (authenticated malformed bodies) - see C06 evidence']
+                'probe_served', 'byz.auth_malformed', 'byz.auth_malformed.request', 'byz.auth_malformed.response']
+NOT_EXERCISED = []
 PROBE_EVERY = 11.0
 QUIET = 95.0
 
@@ -75,6 +75,9 @@ def generate(seed, tier):
         tt += PROBE_EVERY
     ops.sort(key=lambda x: x['t'])
     sc['probe_flow'] = pk['flow']
+    if r.random() < 0.4:
+        sc['byz'] = {'kind': 'auth_malformed', 'seed': r.randrange(2 ** 31)}
+        sc['meta']['byz'] = 'auth_malformed'
     return sc
 
 
@@ -163,6 +166,7 @@ def _execute(scenario, with_hostile=True):
         sc = copy.deepcopy(scenario)
         sc['ops'] = [o for o in sc['ops'] if not (o['op'] in ('sendfail', 'kerr', 'kraw') or
                                                   (o['op'] == 'call' and o['name'] in ('hostile', 'kodd')))]
+        sc.pop('byz', None)
         sc['fate_policy'] = {'mode': 'random', 'lat_range': [0.005, 0.05]}
         sc['fates'] = {k: v for k, v in sc.get('fates', {}).items() if v.get('fate') in ('deliver',)}
 
@@ -171,6 +175,16 @@ def _execute(scenario, with_hostile=True):
         ctx['cov'] = workload.Coverage(w)
         workload.QuietTail(w)
         ctx['surv'] = Survival(w, PROP)
+        ctx['wedge'] = Wedge(w, PROP)
+        if sc.get('byz'):
+            # authenticated-but-malformed input: P's (and D's) protected messages are re-made by a peer holding the session keys
+            from sim import byz
+            from sim.interpose import Interposer
+            from sim.wiretap import Wiretap
+            tap = ctx['tap'] = Wiretap(w, check_reencode=False)
+            ip = ctx['ip'] = Interposer(w, tap)
+            rule, _ = byz.make(sc['byz']['kind'], sc['byz']['seed'], w, ip, tap, ctx['reach'])
+            ip.rules.append(rule)
         ctx['handlers'] = _handlers(ctx)
 
         class Zombie:
